@@ -126,6 +126,24 @@ func c01Check(c c01Case) error {
 			return fmt.Errorf("[%s] invalid JSON accepted: %q", cfg, clip(c.In))
 		}
 	}
+	// The verdict is a function of the input alone: it is the same when the call is handed an object that has just
+	// served a ParseND call (line feeds are record separators there, and only there). Histories proper belong to C15.
+	if len(c.In) <= 1<<16 {
+		prev, perr := simdjson.ParseND([]byte("[1]\n{\"a\":2}\n[3]"), nil)
+		if perr != nil {
+			return fmt.Errorf("ParseND of a three-line document failed: %v", perr)
+		}
+		in := append([]byte(nil), c.In...)
+		pj, err := simdjson.Parse(in, prev)
+		switch {
+		case err != nil && pj != nil:
+			return fmt.Errorf("[reused after ParseND] Parse returned both an error (%v) and a result", err)
+		case v == rj.MustAccept && err != nil:
+			return fmt.Errorf("[reused after ParseND] valid JSON rejected (%v): %q", err, clip(c.In))
+		case v == rj.MustReject && err == nil:
+			return fmt.Errorf("[reused after ParseND] invalid JSON accepted: %q", clip(c.In))
+		}
+	}
 	return nil
 }
 
